@@ -41,3 +41,4 @@ def run(ctx):
     # modules of the dumping side, and the sweeten walk mirrors the savorize walk
     D.r11_1_calltime_writes(ctx, 'R06.12', modules=('yatiml.dumper', 'yatiml.representers'))
     R.r05_8_hook_symmetry(ctx, 'R06.13')
+    R3.r10_8_each_class_once(ctx, 'R06.14')
